@@ -6,6 +6,7 @@ import sys
 import time
 
 VERIF = os.path.dirname(os.path.dirname(os.path.abspath(__file__)))
+EVDIR = os.environ.get("VERIF_EVIDENCE_DIR") or os.path.join(VERIF, "evidence")
 
 
 def load_known():
@@ -83,13 +84,13 @@ class Check:
                 self.known_hit.append(v)
             else:
                 real.append(v)
-        os.makedirs(os.path.join(VERIF, "evidence", "replay"), exist_ok=True)
+        os.makedirs(os.path.join(EVDIR, "replay"), exist_ok=True)
         out_lines = []
         for v in self.known_hit:
             out_lines.append("KNOWN-FINDING: property=%s %s — %s" % (self.pid, v["key"], known_keys[v["key"]].get("what", v["detail"])))
         for i, v in enumerate(real):
             safe = re.sub(r"[^A-Za-z0-9_.-]+", "_", v["key"])[:120]
-            rp = os.path.join(VERIF, "evidence", "replay", "%s-%s-%d.json" % (self.pid, safe, i))
+            rp = os.path.join(EVDIR, "replay", "%s-%s-%d.json" % (self.pid, safe, i))
             with open(rp, "w") as fh:
                 json.dump({"property": self.pid, "violation": v, "tree": getattr(facts, "tree", None),
                            "config": getattr(facts, "config", None)}, fh, indent=1)
@@ -128,7 +129,7 @@ class Check:
             "violations": len(real),
         }
         ev["coverage"].update(self.extra)
-        with open(os.path.join(VERIF, "evidence", "%s.json" % self.pid), "w") as fh:
+        with open(os.path.join(EVDIR, "%s.json" % self.pid), "w") as fh:
             json.dump(ev, fh, indent=1)
         print("%s: %d rule instance(s) evaluated, %d hold, %d violation(s), %d known finding(s); rules: %s" % (
             self.pid, n_ob, n_ok, len(real), len(self.known_hit),
